@@ -265,9 +265,12 @@ var c15Generic = map[string]bool{"paths": true, "components": true, "schemas": t
 func c15Locators(root any, m *c15mut) []string {
 	var out []string
 	cur := root
-	for _, t := range m.ptr {
+	for k, t := range m.ptr {
 		if _, err := strconv.Atoi(t); err != nil && !c15Generic[t] {
 			out = append(out, t)
+		} else if k == 2 && m.ptr[0] == "components" {
+			// a component named like a keyword ("type") is still a name: require it quoted
+			out = append(out, strconv.Quote(t))
 		}
 		switch x := cur.(type) {
 		case map[string]any:
@@ -289,7 +292,60 @@ func c15Locators(root any, m *c15mut) []string {
 	if m.refName != "" {
 		out = append(out, m.refName)
 	}
+	// a problem inside a component may be reported where the component is used: the path templates
+	// whose subtree reaches the component through references locate it as well
+	if len(m.ptr) >= 3 && m.ptr[0] == "components" {
+		target := "#/components/" + m.ptr[1] + "/" + m.ptr[2]
+		if doc, ok := root.(map[string]any); ok {
+			if paths, ok := doc["paths"].(map[string]any); ok {
+				for tpl, item := range paths {
+					if c15Reaches(doc, item, target, map[string]bool{}) {
+						out = append(out, tpl)
+					}
+				}
+			}
+		}
+	}
 	return out
+}
+
+// c15Reaches: does the subtree v reach the component `target` by following $ref values?
+func c15Reaches(doc map[string]any, v any, target string, seen map[string]bool) bool {
+	switch x := v.(type) {
+	case map[string]any:
+		if r, ok := x["$ref"].(string); ok {
+			if r == target {
+				return true
+			}
+			if !seen[r] && strings.HasPrefix(r, "#/") {
+				seen[r] = true
+				var cur any = doc
+				for _, t := range strings.Split(r[2:], "/") {
+					mm, ok := cur.(map[string]any)
+					if !ok {
+						cur = nil
+						break
+					}
+					cur = mm[strings.NewReplacer("~1", "/", "~0", "~").Replace(t)]
+				}
+				if c15Reaches(doc, cur, target, seen) {
+					return true
+				}
+			}
+		}
+		for _, c := range x {
+			if c15Reaches(doc, c, target, seen) {
+				return true
+			}
+		}
+	case []any:
+		for _, c := range x {
+			if c15Reaches(doc, c, target, seen) {
+				return true
+			}
+		}
+	}
+	return false
 }
 
 var reGoagFrame = regexp.MustCompile(`github\.com/vkd/goag(?:/[a-z]+)*\.(\(?\*?[A-Za-z0-9_\[\].]+\)?(?:\.[A-Za-z0-9_]+)*)\(`)
@@ -483,7 +539,9 @@ func c15CLI(run *report.Run, env *Env, muts []c15mut, jobs []*genrun.Job, result
 		os.MkdirAll(dir, 0o755)
 		sf := filepath.Join(dir, "openapi.yaml")
 		os.WriteFile(sf, jobs[i].Spec, 0o644)
-		c := exec.Command(bin, "-file", sf, "-out", filepath.Join(dir, "out"), "-package", "gen", "-config", filepath.Join(dir, "none.yaml"))
+		// same options as the library job whose verdict is compared
+		c := exec.Command(bin, "-file", sf, "-out", filepath.Join(dir, "out"), "-package", "gen", "-config", filepath.Join(dir, "none.yaml"),
+			fmt.Sprintf("-client=%v", jobs[i].Client), fmt.Sprintf("-api-handler=%v", !jobs[i].NoAPI), "-basepath", jobs[i].BasePath)
 		var stderr bytes.Buffer
 		c.Stderr = &stderr
 		c.Stdout = &stderr
